@@ -6,5 +6,6 @@ CONSTANTS
   ItemDepth = 3
   MutFields = 1
   JMutNodes = 1
+  Tags = {}
 INVARIANTS Laws Emit
 CHECK_DEADLOCK FALSE
